@@ -617,7 +617,9 @@ func runSQLite(args []string) {
 			fail("C17", caseJSON, fmt.Sprintf("after UPDATE/DELETE the state differs from hand-written SQL: sqlair %v vs plain %v", d1, d2), "")
 		}
 		// transactions: commit makes all visible, rollback none (observation for C12)
-		tx, err := db.Begin(ctx, nil)
+		// (the options are hints to the driver; a driver that accepts writes under them
+		// must see them committed)
+		tx, err := db.Begin(ctx, []*sqlair.TXOptions{nil, {}, {ReadOnly: true}}[cr.Intn(3)])
 		if err == nil {
 			ins, perr := sqlair.Prepare("INSERT INTO t1 (*) VALUES ($"+tn+".*)", reflect.Zero(st.t).Interface())
 			if perr == nil {
